@@ -194,6 +194,8 @@ def build(X):
     pb = X.fn(GEN_EXPR, "parse_bound")
     tiw.rewrite("R5", pb.orig, "", why="nested fn hoisted to item level (text unchanged)")
     tiw.rewrite("R6", "Result<sql_ast::WindowFrame>", "Result<sql_ast::WindowFrame, Error>")
+    tiw.desugar_map_transpose()
+    tiw.desugar_option_closures()
     tiw.ret_name("r")
     tiw.contract("""
         requires
@@ -349,8 +351,29 @@ def _try(kind, a, b):
     return rec
 
 
+def _try_block():
+    """a window block whose first transform uses no window function and whose sort stands INSIDE the block (round-7 seed C04-14): a valid program, its frame applies to the window functions behind the sort"""
+    import replaylib
+    prql = "from t\ngroup g (window range:-1..0 (derive {d = y * 2} | sort x | derive {s = sum d}))\nselect {g, x, s}\nsort {g, x}\n"
+    rec = {"obligation": "window_frame.WF2a", "input": prql, "replay_kind": "window_block"}
+    ok, sql = replaylib.compile_prql(prql, "sql.sqlite")
+    if not ok:
+        rec.update(failing=True, expected="compiles", observed=sql[:300])
+        return rec
+    setup = "create table t(g integer, x integer, y integer);" + "".join("insert into t values(%d,%d,%d);" % r for r in _ROWS)
+    ok2, rows = replaylib.sqlite_rows(setup, sql)
+    exp = []
+    for g in sorted({r[0] for r in _ROWS}):
+        grp = sorted([r for r in _ROWS if r[0] == g], key=lambda r: r[1])
+        for (_, x, y) in grp:
+            exp.append((g, x, sum(2 * r[2] for r in grp if x - 1 <= r[1] <= x)))
+    got = [tuple(r) for r in rows] if ok2 else rows
+    rec.update(failing=(not ok2) or got != exp, expected=repr(exp), observed=repr(got)[:400], sql=sql)
+    return rec
+
+
 def sweep():
-    return [_try(*f) for f in _FRAMES]
+    return [_try(*f) for f in _FRAMES] + [_try_block()]
 
 
 def replay(failure):
@@ -361,4 +384,6 @@ def replay(failure):
 
 
 def rerun(doc):
+    if doc.get("replay_kind") == "window_block":
+        return _try_block()
     return _try(doc["kind"], doc["a"], doc["b"])
